@@ -248,9 +248,22 @@ func c17Run(c *Ctx, cs c17Case, args []reflect.Value, diff *c17Diff, count bool)
 		// to shared state would be blamed on the wrong call
 		by = newBystanders()
 	}
+	// an earlier copy of an initialised handle (what a Stack holds after Push, what another variable holds):
+	// Init gives the VARIABLE it is called on a new instance; the one the copy refers to stays what it was
+	var earlier any
+	earlierKey := ""
+	if cd, ok := x.(stackage.Condition); ok && cs.Method == "Init" && cd.IsInit() {
+		earlier = cd
+		earlierKey = stackage.VerifDump(cd).Key(true)
+	}
 	res, p := callMethod(pv, cs.Method, args)
 	if by != nil && p == "" {
 		by.check(c, cs, desc)
+	}
+	if earlier != nil && p == "" {
+		if now := stackage.VerifDump(earlier).Key(true); now != earlierKey {
+			c.Violation("Init:earlier-copy-changed:"+cs.State, fmt.Sprintf("%s changed the instance an earlier copy of the handle refers to (Init is about the variable it is called on):\n before %s\n after  %s", desc, earlierKey, now), cs, len(desc))
+		}
 	}
 	if p != "" {
 		if strings.Contains(p, "harness/gen.go") && strings.Contains(p, "ptrOp") {
